@@ -652,7 +652,9 @@ fn judge_all(backend: &str, b: &Tree, a: &Tree, call: &Call, out: &Outcome, v: &
     }
     let through = b.through_link(&call.src) || b.through_link(&call.dst) || b.through_link(&e);
     let nested = e == call.src || is_under(&e, &call.src) || is_under(&call.src, &e);
-    let dst_in_src = is_under(&e, &call.src);
+    // (strictly inside: a copy whose effective destination *is* the source has nothing to write and must leave
+    // the source as it was, modes included)
+    let dst_in_src = e != call.src && is_under(&e, &call.src);
     match &call.copy {
         None => {
             if !out.ok {
